@@ -164,11 +164,16 @@ TPostRead ==
   ELSE IF E.class = "" THEN Reject("C11-no-error-after-close", <<E.end, E.conn, E.reads>>)
   ELSE IF ~Faulty /\ E.class # "eof" THEN Reject("C11-not-eof-after-orderly-close", <<E.end, E.conn, E.class>>)
   ELSE Skip
+\* Open() after the multiplexer was closed: refused (MuxTable: Open is not enabled once mclosed); a connection handed out
+\* all the same must at least fail at once
+TPostOpen == IF E.hung THEN Reject("C11-read-hung", <<"A", 3000>>)
+             ELSE IF ~E.refused /\ E.class = "" THEN Reject("C11-no-error-after-close", <<"A", 3000, 0>>)
+             ELSE Skip
 TCloseDone == IF E.hung THEN Reject("C11-close-hung", <<E.end>>) ELSE Skip
 TAccept ==
   IF E.hung THEN Reject("C11-accept-hung", <<E.n>>)
   ELSE IF E.n = 1 /\ ~E.got THEN Reject("C11-accept-first", <<E.class>>)
-  ELSE IF E.n = 2 /\ E.class # "eof" THEN Reject("C11-accept-after-close", <<E.class>>)
+  ELSE IF E.n \in {2, 4, 5} /\ E.class # "eof" THEN Reject("C11-accept-after-close", <<E.n, E.class>>)   \* 2: blocked when closed (two of them); 4: called after the close; 5: closed before anybody accepted
   ELSE Skip
 
 TraceNext ==
@@ -189,6 +194,7 @@ TraceNext ==
        [] E.ev = "post.close" -> TCloseDone
        [] E.ev = "closed.by"  -> TCloseDone
        [] E.ev = "accept"     -> TAccept
+       [] E.ev = "post.open"  -> TPostOpen
        [] E.ev = "crash"      -> Reject("C11-panic", <<E.text>>)
        [] E.ev = "skipped"    -> l' = E.nb /\ UNCHANGED <<bad, stats, wl, cw, trunk, sent, q, rcvd, wasfull, cfg, phase>>   \* not replayed
        [] OTHER               -> Skip
